@@ -200,7 +200,7 @@ def check_sim_mutex(rep, u):
     # ... and it exists: entered with the pointer NULL, thread_init leaves it assigned from the constructor on every path (with the test
     # inverted the mutex is never created, p_mutex_lock (NULL) fails silently and every simulated atomic runs unserialised)
     from plint.wiring import init_creates
-    made = [x for x in init_creates(u.fn("p_atomic_thread_init", raw=True)) if x[0] == "pp_atomic_mutex"]
+    made = [x for x in init_creates(u.fn("p_atomic_thread_init")) if x[0] == "pp_atomic_mutex"]
     okm = bool(made) and made[0][2] and made[0][1] == "p_mutex_new"
     rep.ob("C04.3", init, "mutex:created", okm, "thread_init creates the global mutex whenever it does not exist yet" if okm else
            "p_atomic_thread_init can return with pp_atomic_mutex still NULL: p_mutex_lock (NULL) only reports failure, which the operations ignore, so no read-modify-write "
